@@ -151,6 +151,10 @@ class Summaries:
         rounding helper, ``self[key] = ...`` in ValueMap) mutate an object the *caller* owns and are judged there."""
         if fn.name == "__init__":
             return False
+        # only state the properties talk about: the account, orders, loans and their registries.  Caches and bookkeeping
+        # of price feeds, configuration or strategies are not account state.
+        if fn.cls is None or not self._is_state_class(fn.cls.qualname):
+            return False
         aliases: Set[str] = set()
         for s in A.stores(fn):
             if isinstance(s.target, ast.Name) and isinstance(s.node, (ast.Assign, ast.NamedExpr)):
@@ -181,6 +185,17 @@ class Summaries:
             if isinstance(root, ast.Name) and root.id in aliases and s.kind in ("subscript", "mutcall", "delete", "augassign"):
                 return True
         return False
+
+    STATE_ROOTS = ("basana.backtesting.account_balances.AccountBalances", "basana.backtesting.orders.Order",
+                   "basana.backtesting.lending.base.Loan", "basana.backtesting.order_mgr.OrderManager",
+                   "basana.backtesting.loan_mgr.LoanManager", "basana.backtesting.helpers.ExchangeObjectContainer",
+                   "basana.backtesting.liquidity.LiquidityStrategy", "basana.core.helpers.TaskPool", "basana.core.helpers.TaskGroup")
+
+    def _is_state_class(self, q: str) -> bool:
+        if not q.startswith("basana.backtesting.") and not q.startswith("basana.core.helpers."):
+            return True     # outside the backtesting exchange the summaries are used for other purposes: keep them general
+        mro = self.ctx.facts.mro.get(q, [q])
+        return any(r in mro for r in self.STATE_ROOTS)
 
     def _fix(self) -> None:
         funcs = list(self.repo.funcs.values())
